@@ -595,7 +595,7 @@ IncOps == IF Quick THEN {"add", "mod"} ELSE ArithOps
 
 OperandOps == IF Quick THEN {"add", "mod", "lt", "eq", "and"}
               ELSE ArithOps \cup CmpOps \cup EqOps \cup LogOps
-OperandOthers == IF Quick THEN At({"i", "t", "5"}) ELSE At({"i", "b", "t", "s", "5", "ai"})
+OperandOthers == IF Quick THEN At({"i", "t", "5", "s"}) ELSE At({"i", "b", "t", "s", "5", "ai"})
 SpecOthers == IF Quick THEN At({"i", "t", "5"})
               ELSE At({"i", "b", "t", "s", "5", "'a'", "true", "ai"}) \cup {N2("add", N0("b"), N0("b"))}
 ElemOthers == IF Quick THEN At({"i", "b", "s"}) ELSE At({"i", "b", "t", "s", "5", "'a'", "ai", "fe()"})
